@@ -188,6 +188,27 @@ def loop_shape(F, sf, fn, budget_arg):
     return b, out
 
 
+def checked_sub_fit(b, sh, budget):
+    """[(call block, switch block, fit target, no-fit target)] for `budget.checked_sub(item)` calls inside the loop whose
+    result is matched: first operand derives from the budget argument."""
+    out = []
+    for bi, t in b.calls_to(r'<impl u32>::checked_sub$|<impl usize>::checked_sub$'):
+        if bi not in sh['loop_blocks'] or len(t['args']) != 2 or budget not in arg_ix(Origin(b).of_operand(t['args'][0])):
+            continue
+        for sb in sorted(b.live):
+            tt = b.blocks[sb]['term']
+            if tt['k'] != 'switch' or sb not in b.reachable_after(bi):
+                continue
+            pl = op_place(tt['discr'])
+            for dd in (b.whole_defs(pl['l']) if pl and not place_proj(pl) else []):
+                if dd[2] == 'assign' and dd[3]['rv']['k'] == 'discr' and dd[0] == sb and any(l[0] == 'call' and len(l) > 2 and l[2] == bi for l in Origin(b).of_operand({'cp': {'l': dd[3]['rv']['place']['l']}})):
+                    tg = dict((v, x) for v, x in tt['targets'])
+                    fit, nofit = tg.get(1, tt['otherwise']), tg.get(0, tt['otherwise'])
+                    if fit != nofit and not any(o[0] == bi for o in out):
+                        out.append((bi, sb, fit, nofit))
+    return out
+
+
 def opt_props(F, R, sf):
     S = 'v5::codec::encode::encoded_size_opt_props'
     E = 'v5::codec::encode::encode_opt_props'
@@ -199,6 +220,21 @@ def opt_props(F, R, sf):
         b, sh = loop_shape(F, sf, fn, budget)
         name = short_fn(fn)
         ok_cmp = len(sh['cmps']) == 1
+        chk = [] if sh['cmps'] else checked_sub_fit(b, sh, budget)
+        if chk:
+            # `budget.checked_sub(item)`: Some(rest) iff the item fits, rest = budget - item
+            cbi, sw_, fit, nofit = chk[0]
+            R.ob('C09.opt-props', '%s|one-fit-test-per-user-property' % name, len(chk) == 1, 'expected exactly one fit test inside the user-property loop, found %d checked subtractions' % len(chk), b.loc(sh['hdr']))
+            R.ob('C09.opt-props', '%s|fit-test-compares-item-with-budget' % name, True, '', b.loc(cbi))
+            R.ob('C09.opt-props', '%s|fits-iff-item<=budget' % name, True, '', b.loc(cbi))
+            reach = b.reachable(nofit, avoid=[fit])
+            back = sh['hdr'] in reach
+            emits = [x for x, t in b.calls() if x in reach and (re.search(r'BufMut|BytePages', callee_name(t) or '') or re.search(r'Encode>::encode$|Encode::encode$', callee_name(t) or ''))]
+            adds = [x for x in reach if b.blocks[x]['term']['k'] == 'assert' and b.blocks[x]['term'].get('op') == 'Add']
+            R.ob('C09.opt-props', '%s|first-property-that-does-not-fit-ends-the-walk' % name, not back and not emits and not adds,
+                 'after a user property did not fit the function continues (%s): the sizer and the emitter then disagree about what is written' % ('back to the loop' if back else 'emits/accumulates more'), b.loc(nofit))
+            res[fn] = dict(b=b, fit=fit, nofit=nofit, hdr=sh['hdr'])
+            continue
         R.ob('C09.opt-props', '%s|one-fit-test-per-user-property' % name, ok_cmp, 'expected exactly one size comparison inside the user-property loop, found %d' % len(sh['cmps']), b.loc(sh['hdr']))
         if not ok_cmp:
             continue
@@ -276,6 +312,36 @@ def budget_decrement(F, R, fn, budget):
     subs = [(bi, b.blocks[bi]['term']) for bi in sorted(b.live) if b.blocks[bi]['term']['k'] == 'assert' and b.blocks[bi]['term'].get('op') == 'Sub']
     ok = False
     msg = 'no `budget -= item size` found in the loop'
+    if not subs:
+        # `budget = rest` with `Some(rest) = budget.checked_sub(item)`: the new budget is the checked difference of the old one
+        for bi, t in b.calls_to(r'<impl u32>::checked_sub$|<impl usize>::checked_sub$'):
+            a0 = op_place(t['args'][0]) if t['args'] else None
+            # locals the minuend is a copy of (through plain copies, references, fields of a closure environment built here)
+            roots, work = set(), [a0['l']] if a0 is not None else []
+            while work and len(roots) < 40:
+                l_ = work.pop()
+                if l_ in roots:
+                    continue
+                roots.add(l_)
+                for dd in b.whole_defs(l_):
+                    if dd[2] != 'assign':
+                        continue
+                    rv_ = dd[3]['rv']
+                    if rv_['k'] in ('use', 'cast') and op_place(rv_['op']) is not None:
+                        work.append(op_place(rv_['op'])['l'])
+                    elif rv_['k'] == 'ref':
+                        work.append(rv_['place']['l'])
+                    elif rv_['k'] == 'agg' and rv_.get('agg') in ('closure', 'tuple'):
+                        work.extend(op_place(f_)['l'] for f_ in rv_['fields'] if op_place(f_) is not None)
+            for xb, xj, s_ in b.assigns():
+                if place_proj(s_['lhs']) or s_['rv']['k'] != 'use' or op_place(s_['rv']['op']) is None:
+                    continue
+                og = Origin(b).of_operand(s_['rv']['op'])
+                if any(l[0] == 'call' and len(l) > 2 and l[2] == bi for l in og) and s_['lhs']['l'] in roots and b.local_name(s_['lhs']['l']) and xb in b.reachable_after(bi):
+                    ok = True
+        if ok:
+            R.ob('C09.limit-arith', '%s|budget-=item-size-under-fit-guard' % name, True, '', b.loc(0))
+            return
     for bi, t in subs:
         oa = Origin(b).of_operand(t['a'])
         if budget in arg_ix(oa):
